@@ -53,9 +53,19 @@ type cacheRig struct {
 	direct   string // the profiler built with the direct-call file
 }
 
+// variants 3 and 4: the same image padded to 33 MiB, differing in the very last byte only (same size, same first
+// 32 MiB: what hashing a bounded prefix of a large binary would not tell apart)
+const bigVariantA, bigVariantB, nVariants = 3, 4, 5
+
 func (c *cacheRig) content(v int) []byte {
 	if v == 0 {
 		return c.base
+	}
+	if v >= bigVariantA {
+		out := make([]byte, 33<<20)
+		copy(out, c.base)
+		out[len(out)-1] = byte(v)
+		return out
 	}
 	return append(append([]byte{}, c.base...), []byte(fmt.Sprintf("\nvariant %d\n", v))...)
 }
@@ -84,7 +94,7 @@ func newCacheRig(e *env, rng *rand.Rand) (*cacheRig, error) {
 	c.dumpFile = filepath.Join(c.home, ".seccomp-profiler", "target-"+hex.EncodeToString(sum[:])[:10])
 	info := infoFor("amd64")
 	nums := knownNumbers(info)
-	for v := 0; v < 3; v++ {
+	for v := 0; v < nVariants; v++ {
 		h := sha256.Sum256(c.content(v))
 		c.hashes[v] = hex.EncodeToString(h[:])
 		// 48 functions with distinct syscalls, spread evenly; a variant uses its own selection
@@ -105,7 +115,7 @@ func newCacheRig(e *env, rng *rand.Rand) (*cacheRig, error) {
 		return nil, err
 	}
 	// cold-cache reference outputs
-	for v := 0; v < 3; v++ {
+	for v := 0; v < nVariants; v++ {
 		c.reset()
 		r := c.run(Run{Variant: v, Sched: "ok"})
 		if r.Status != "ok" || countNames(r.Stdout) == 0 {
@@ -277,6 +287,7 @@ func runCache(e *env, replayCases []string) error {
 		// to the same ELF image: same sections, same Go build id, another file hash)
 		hs = append(hs, History{Runs: []Run{{Variant: 1, Sched: "ok"}, {Variant: 2, Sched: "ok"}, {Variant: 1, Sched: "ok"}}})
 		hs = append(hs, History{Runs: []Run{{Variant: 0, Sched: "ok"}, {Variant: 1, Sched: "ok"}}})
+		hs = append(hs, History{Runs: []Run{{Variant: bigVariantA, Sched: "ok"}, {Variant: bigVariantB, Sched: "ok"}, {Variant: bigVariantA, Sched: "ok"}}})
 		for j := 0; j <= cacheChunks; j++ {
 			hs = append(hs, History{Runs: []Run{{Variant: 0, Sched: fmt.Sprintf("kill:%d", j)}, {Variant: 0, Sched: "ok"}}})
 			hs = append(hs, History{Runs: []Run{{Variant: 0, Sched: fmt.Sprintf("fail:%d", j)}, {Variant: 0, Sched: "ok"}}})
